@@ -1666,6 +1666,46 @@ def rule_P9(ctx, reader, obj, rid='P9'):
                'order is lexicographic (..._10 before ..._2), so lists restored this way are '
                'permuted against their sibling records once there are more than ten'
                % unparse(used[0]))
+    # a container built by a comprehension over the member names of a group is ordered by
+    # name; storing it (or its values) into an attribute of the object permutes a list
+    name_ordered = {}
+    for st in walk_no_nested(reader.node):
+        if isinstance(st, ast.Assign) and len(st.targets) == 1 and \
+                isinstance(st.value, (ast.ListComp, ast.DictComp, ast.SetComp, ast.GeneratorExp)):
+            g0 = st.value.generators[0]
+            e = g0.iter
+            while isinstance(e, ast.Call) and dotted(e.func) in ('list', 'sorted', 'enumerate',
+                                                                 'reversed', 'tuple') and e.args:
+                e = e.args[0]
+            over = _is_group(e, gv) or (isinstance(e, ast.Call) and
+                                        isinstance(e.func, ast.Attribute) and
+                                        e.func.attr in ('keys', 'items', 'values') and
+                                        _is_group(e.func.value, gv))
+            if over and isinstance(st.targets[0], ast.Name):
+                name_ordered[st.targets[0].id] = st
+            elif over and root_attr(st.targets[0], obj):
+                n += 1
+                ctx.ob(rid, '%s:name-ordered(%s)' % (reader.qualname,
+                                                     root_attr(st.targets[0], obj)[0]),
+                       False, reader.where(st),
+                       '`%s` fills the attribute in the order h5py lists member names '
+                       '(lexicographic: ..._10 before ..._2)' % unparse(st)[:60])
+    for st in walk_no_nested(reader.node):
+        if isinstance(st, ast.Assign) and len(st.targets) == 1 and name_ordered:
+            ra = root_attr(st.targets[0], obj)
+            used = [x.id for x in ast.walk(st.value) if isinstance(x, ast.Name) and
+                    x.id in name_ordered]
+            if ra and used and not (isinstance(st.value, ast.Call) and
+                                    isinstance(st.value.func, ast.Attribute) and
+                                    st.value.func.attr in ('pop', 'get') and
+                                    st.value.args and isinstance(st.value.args[0], ast.Constant)):
+                n += 1
+                ctx.ob(rid, '%s:name-ordered(%s)' % (reader.qualname, ra[0]), False,
+                       reader.where(st),
+                       'self.%s is filled from `%s`, a container built by iterating the member '
+                       'names of the group: the order is lexicographic (..._10 before ..._2), so '
+                       'the elements are permuted against their sibling records once there are '
+                       'more than ten' % (ra[0], used[0]))
     # probed restore: `i = 0; while key(i) in group: append(read(group[key(i)])); i += 1`
     from .exprs import as_aug
     for lp in walk_no_nested(reader.node):
